@@ -54,6 +54,7 @@ func VerifC15Stream() {
 		})
 		vndAssert((err != nil) == (mode == 1), "Query error does not match the callback's")
 		if mode == 0 {
+			vndKnown("KF-merge-reorder", w.mergeReorder())
 			w.commitModel()
 		} else {
 			w.clearPending()
